@@ -364,12 +364,93 @@ pub proof fn lemma_upto_next(sols: Seq<Solution>, i: int)
                 num_nodes <= 0x1_0000 ==> (forall|n: u16| (n as int) < itn.index@ ==> #[trigger] in_degrees@[n] == (if parent_map@.contains_key(n) { parent_map@[n]@.len() } else { 0 }))'''}},
           closures={0: {'params': 'v: &Vec<u16>', 'ret': 'l: usize', 'ensures': 'l == v@.len()'}},
           props=('C01', 'C06')))
-    so.fn('reduce_in_degrees', F('reduce_in_degrees', props=('C01', 'C06')))
+    so.fn('reduce_in_degrees', F('reduce_in_degrees', ensures='''
+            // one (saturating) decrement per occurrence of a node in the child list; no entry appears or disappears
+            final(in_degrees)@.dom() == old(in_degrees)@.dom(),
+            forall|c: u16| #[trigger] final(in_degrees)@.contains_key(c) ==> final(in_degrees)@[c] as int == crate::sat_sub_int(old(in_degrees)@[c] as int, crate::count_in(children@, c, children@.len() as int))''',
+          head_ghost='let ghost m0 = in_degrees@;',
+          loops={0: {'iter_name': 'itc', 'invariant': '''in_degrees@.dom() == m0.dom(), itc.seq().len() == children@.len(), 0 <= itc.index@ <= itc.seq().len(),
+                        (forall|k: int| 0 <= k < itc.seq().len() ==> *(#[trigger] itc.seq()[k]) == children@[k]),
+                        forall|c: u16| #[trigger] in_degrees@.contains_key(c) ==> in_degrees@[c] as int == crate::sat_sub_int(m0[c] as int, crate::count_in(children@, c, itc.index@ as int))''',
+                     'head_proof': 'assert(*child == children@[itc.index@ as int]);'}},
+          attrs=['#[verifier::loop_isolation(false)]'],
+          props=('C01', 'C06')))
     so.fn('find_nodes_with_no_parents', F('find_nodes_with_no_parents', mode='assumed', ensures="""
             forall|k: int| 0 <= k < r@.len() ==> in_degrees@.contains_key(#[trigger] r@[k]) && in_degrees@[r@[k]] == 0,
-            forall|n: u16| in_degrees@.contains_key(n) && in_degrees@[n] == 0 ==> r@.contains(n)""",
-          note='`filter_map` over a BTreeMap iterator: outside Verus; std BTreeMap is outside CBMC: NOT VERIFIED (4 lines)', props=('C01',)))
-    so.fn('parallel_topo_sort', F('parallel_topo_sort', attrs=['#[verifier::exec_allows_no_decreases_clause]'], props=('C01', 'C06')))
+            forall|n: u16| in_degrees@.contains_key(n) && in_degrees@[n] == 0 ==> r@.contains(n),
+            // a BTreeMap yields each key once (in ascending order)
+            forall|k: int, k2: int| 0 <= k < k2 < r@.len() ==> r@[k] < r@[k2]""",
+          note='`filter_map` over a BTreeMap iterator: outside Verus; std BTreeMap is outside CBMC: NOT VERIFIED (4 lines; bounded by xrun graph through the entry point)', props=('C01',)))
+    _S3 = 'predicate.starts(), predicate.edges@'
+    so.fn('parallel_topo_sort', F('parallel_topo_sort', attrs=['#[verifier::loop_isolation(false)]'],
+          requires='''crate::graph_ok(%(S)s), predicate.nodes@.len() <= 0x1_0000,
+            // the parent map is the one create_parent_map builds for this graph
+            forall|b: u16| (b as int) < predicate.nodes@.len() ==> #[trigger] parent_map@.contains_key(b),
+            forall|b: u16| (b as int) < predicate.nodes@.len() ==> (#[trigger] parent_map@[b])@ == crate::parents_of(%(S)s, b)''' % {'S': _S3},
+          ensures='''r matches Ok(levels) ==> (
+                // every node is placed, exactly once, in a level after the levels of all its parents
+                (forall|a: u16| (a as int) < predicate.nodes@.len() ==> #[trigger] crate::emitted(levels@, a))
+                && crate::placed_once(levels@)
+                && crate::parents_first(%(S)s, levels@)
+                && (forall|i: int, j: int| 0 <= i < levels@.len() && 0 <= j < levels@[i]@.len() ==> (#[trigger] levels@[i]@[j] as int) < predicate.nodes@.len()))''' % {'S': _S3},
+          head_ghost='let ghost n = predicate.nodes@.len() as int;',
+          hints=[('let mut out = Vec::new();', 'before', '''assert(predicate.starts().len() == predicate.nodes@.len());
+                    assert forall|b: u16| #[trigger] in_degrees@.contains_key(b) implies in_degrees@[b] as int == crate::indeg(%(S)s, in_degrees@.dom(), b, n) by {
+                        assert((b as int) < n); assert(parent_map@.contains_key(b)); assert(parent_map@[b]@ == crate::parents_of(%(S)s, b));
+                        assert(in_degrees@[b] == parent_map@[b]@.len());
+                        assert forall|x: u16| (x as int) < n implies in_degrees@.dom().contains(x) by { assert(in_degrees@.contains_key(x)); }
+                        crate::lemma_plist_len(%(S)s, in_degrees@.dom(), b, n, 0); }''' % {'S': _S3}),
+                 ('Ok(out)', 'before', '''assert forall|a: u16| (a as int) < n implies #[trigger] crate::emitted(out@, a) by { assert(!in_degrees@.contains_key(a)); }
+                    assert forall|i: int, j: int| 0 <= i < out@.len() && 0 <= j < out@[i]@.len() implies (#[trigger] out@[i]@[j] as int) < n by { assert(crate::level_of(out@, out@[i]@[j], i)); }'''),
+                 ('out.push(current_level.clone());', 'before', 'let ghost out0 = out@; let ghost d0 = in_degrees@.dom(); let ghost cl = current_level@; let ghost lv = out@.len() as int;', 'ghost'),
+                 ('out.push(current_level.clone());', 'after', '''assert(out@ =~= out0.push(out@[lv])); assert(out@[lv]@ == cl);
+                    // the nodes of the new level have no parent among the waiting nodes: all their parents are placed earlier
+                    assert forall|a: u16, b: u16, i: int| #[trigger] crate::level_of(out@, b, i) && #[trigger] crate::child_of(%(S)s, a, b)
+                            implies exists|i2: int| i2 < i && #[trigger] crate::level_of(out@, a, i2) by {
+                        crate::lemma_child_edge_count(%(S)s, a, b);
+                        if i < lv { assert(crate::level_of(out0, b, i)); let i2 = choose|i2: int| i2 < i && #[trigger] crate::level_of(out0, a, i2); assert(crate::level_of(out@, a, i2)); }
+                        else {
+                            assert(cl.contains(b)); let k = choose|k: int| 0 <= k < cl.len() && cl[k] == b;
+                            assert(in_degrees@.contains_key(cl[k]) && in_degrees@[cl[k]] == 0);
+                            if d0.contains(a) { crate::lemma_indeg_zero(%(S)s, d0, a, b, n); }
+                            assert(crate::emitted(out0, a)); let i2 = choose|i2: int| #[trigger] crate::level_of(out0, a, i2); assert(crate::level_of(out@, a, i2)); } }
+                    assert(crate::placed_once(out@)) by {
+                        assert forall|i: int, j: int, i2: int, j2: int| 0 <= i < out@.len() && 0 <= j < out@[i]@.len() && 0 <= i2 < out@.len() && 0 <= j2 < out@[i2]@.len()
+                                && (#[trigger] out@[i]@[j]) == (#[trigger] out@[i2]@[j2]) implies i == i2 && j == j2 by {
+                            if i < lv && i2 < lv { assert(out0[i]@[j] == out0[i2]@[j2]); }
+                            else if i == lv && i2 == lv { if j < j2 { assert(cl[j] < cl[j2]); } else if j2 < j { assert(cl[j2] < cl[j]); } }
+                            else if i < lv { assert(crate::level_of(out0, out0[i]@[j], i)); assert(d0.contains(cl[j2])); }
+                            else { assert(crate::level_of(out0, out0[i2]@[j2], i2)); assert(d0.contains(cl[j])); } } }''' % {'S': _S3})],
+          loops={0: {'invariant': '''predicate.starts().len() == predicate.nodes@.len(),
+                        forall|x: u16| #[trigger] in_degrees@.contains_key(x) ==> (x as int) < n,
+                        forall|a: u16| (a as int) < n ==> in_degrees@.contains_key(a) || #[trigger] crate::emitted(out@, a),
+                        forall|a: u16, i: int| #[trigger] crate::level_of(out@, a, i) ==> !in_degrees@.contains_key(a) && (a as int) < n,
+                        forall|b: u16| #[trigger] in_degrees@.contains_key(b) ==> in_degrees@[b] as int == crate::indeg(%(S)s, in_degrees@.dom(), b, n),
+                        crate::parents_first(%(S)s, out@), crate::placed_once(out@)''' % {'S': _S3},
+                     # every round takes at least one node out of the waiting set: the sort terminates, and a round that finds no ready node must reject the graph (cycle)
+                     'decreases': 'in_degrees@.dom().len()'},
+                 1: {'iter_name': 'itn', 'invariant': '''in_degrees@.dom().finite(), in_degrees@.dom().len() + itn.index@ == d0.len(), itn.seq() == cl, 0 <= itn.index@ <= cl.len(), out@.len() == lv + 1, out@[lv]@ == cl,
+                        forall|x: u16| #[trigger] in_degrees@.contains_key(x) <==> (d0.contains(x) && !(exists|j: int| 0 <= j < itn.index@ && cl[j] == x)),
+                        forall|b: u16| #[trigger] in_degrees@.contains_key(b) ==> in_degrees@[b] as int == crate::indeg(%(S)s, in_degrees@.dom(), b, n)''' % {'S': _S3},
+                     'head_ghost': 'let ghost dk = in_degrees@.dom(); let ghost mk = in_degrees@; let ghost kk = itn.index@ as int;',
+                     'head_proof': '''assert(node == cl[kk]); assert(d0.contains(node)); assert((node as int) < n);
+                        assert(in_degrees@.contains_key(node)) by { if exists|j: int| 0 <= j < kk && cl[j] == node { let j = choose|j: int| 0 <= j < kk && cl[j] == node; assert(cl[j] < cl[kk]); } }
+                        assert(crate::node_ok(%(S)s, node as int));''' % {'S': _S3},
+                     'tail_proof': '''assert(in_degrees@.dom() =~= dk.remove(node));
+                        assert(dk.remove(node).len() == dk.len() - 1);
+                        assert forall|b: u16| #[trigger] in_degrees@.contains_key(b) implies in_degrees@[b] as int == crate::indeg(%(S)s, in_degrees@.dom(), b, n) by {
+                            crate::lemma_indeg_remove(%(S)s, dk, node, b, n);
+                            crate::lemma_indeg_nonneg(%(S)s, dk.remove(node), b, n); }
+                        assert forall|x: u16| #[trigger] in_degrees@.contains_key(x) <==> (d0.contains(x) && !(exists|j: int| 0 <= j < kk + 1 && cl[j] == x)) by {
+                            if x == node { assert(cl[kk] == x); }
+                            else if exists|j: int| 0 <= j < kk + 1 && cl[j] == x { let j = choose|j: int| 0 <= j < kk + 1 && cl[j] == x; assert(j < kk); } }''' % {'S': _S3},
+                     'after_proof': '''// the whole level has been taken out of the waiting set
+                        assert forall|a: u16| (a as int) < n implies in_degrees@.contains_key(a) || #[trigger] crate::emitted(out@, a) by {
+                            if d0.contains(a) { if exists|j: int| 0 <= j < cl.len() && cl[j] == a { assert(crate::level_of(out@, a, lv)); } }
+                            else { assert(crate::emitted(out0, a)); let i = choose|i: int| #[trigger] crate::level_of(out0, a, i); assert(crate::level_of(out@, a, i)); } }
+                        assert forall|a: u16, i: int| #[trigger] crate::level_of(out@, a, i) implies !in_degrees@.contains_key(a) && (a as int) < n by {
+                            if i < lv { assert(crate::level_of(out0, a, i)); } else { let j = choose|j: int| 0 <= j < cl.len() && cl[j] == a; } }'''}},
+          props=('C01', 'C06')))
     _S = 'predicate.starts(), predicate.edges@'
     _FL = 'node_flag(is_deferred, predicate.nodes@)'
     so.spec('''
